@@ -7,3 +7,5 @@ import WebrtcVerif.Props.C36
 import WebrtcVerif.Drv.C05
 import WebrtcVerif.Drv.C22
 import WebrtcVerif.Drv.C36
+import WebrtcVerif.Props.C40
+import WebrtcVerif.Drv.C40
